@@ -208,3 +208,9 @@ func vDescribe(v any) string {
 	}
 	return fmt.Sprint(v)
 }
+
+// vSingleProc: natively run on one P so that yields hand over deterministically; no-op in the engine.
+func vSingleProc() func() {
+	old := runtime.GOMAXPROCS(1)
+	return func() { runtime.GOMAXPROCS(old) }
+}
